@@ -27,7 +27,7 @@ from lib import vlib
 # "judge": `{ a}` / `{a/**/}` style names (identifier only after stripping whitespace/comments) are
 # invalid guards (the implementation's own rule: "not a valid Rust identifier").
 # "observe": record what the implementation does with them without judging.
-LENIENT_PARAMETER_NAMES = "observe"
+LENIENT_PARAMETER_NAMES = "judge"
 
 RULE = (
     "validator cases = all strings over the 8 symbols a 1 - . { } * _ up to the length bound (exhaustive) + "
